@@ -6,7 +6,7 @@ TECH="deterministic simulation with fault injection (seeded scheduler over seam 
 claimed={
  'C01':('exploration',"seeded search over schedules and fault sequences of the real client against a reference broker; oracles: no forged progress, retransmission at every Online, first transmission, bounded liveness after faults stop"),
  'C03':('exploration',"seeded search with exactly-once publishes; oracles on wire, storage log and the broker's delivery log"),
- 'C05':('exploration',"seeded search over yield-granular interleavings of sequential and concurrent publishers with reconnects; order and DUP oracles over the wire log"),
+ 'C05':('exploration',"seeded search over yield-granular interleavings of sequential and concurrent publishers with reconnects and repeated process restarts; order, DUP and resend-completeness oracles over the wire log"),
  'C08':('exploration',"seeded search over write splits (timeout / hard error at a drawn byte count) and concurrent writers; strict independent parse of every connection's bytes"),
  'C11':('exploration',"seeded search over concurrent requests, quit timing, failing filters and connection loss; response attribution and completion oracles"),
  'C14':('exploration',"seeded search over request method x client state x fault placement x quit timing; class and no-byte-sent oracles over every API return"),
